@@ -53,6 +53,9 @@ import (
 // presentation (Sorted=false) and on the sorted data with Sorted=true:
 //   q == Sample.Quantile(q) of the same data, lo == x_(Lo) or -Inf for order
 //   0, hi == x_(Hi) or +Inf for order n+1; M-guard with canaries around Xs.
+//   The samples include finite values next to MaxFloat64 (neighbouring order
+//   statistics more than MaxFloat64 apart) and +-Inf observations: the bounds
+//   are selected values, not the result of arithmetic on them.
 //   The buffers are refilled in place with other data between rounds (a
 //   result must describe the present contents, not an earlier call's), and
 //   other Sample methods run on unrelated samples between the rounds (SampleCI
@@ -172,11 +175,100 @@ func c11ExactSlack(n int, scale float64) float64 {
 	return 64 * float64(n+2) * 0x1p-52 * scale
 }
 
-// c11Sample builds the sample of size n used for SampleCI from a seed.
-func c11Sample(n int, seed uint64) []float64 {
+// c11Sample builds the sample of size n used for SampleCI from a seed. The
+// statement maps the orders onto "a sample of that size": any observations
+// that have a sorted order, i.e. no NaN; zeros are not drawn (the order of -0
+// and +0 is not defined, and the bounds are compared by value and the guards
+// by bits). Families 5 and 6 hold values on which selection and arithmetic on
+// the selected values differ: finite values whose neighbouring order
+// statistics are more than MaxFloat64 apart (or whose sums overflow), and
+// +-Inf observations (a timed-out run) at either end. q only steers where the
+// overflowing gap is put.
+func c11Sample(n int, seed uint64, q float64) []float64 {
 	rng := mon.NewRand(seed, 0xc11)
 	xs := make([]float64, n)
-	switch seed % 5 {
+	huge := func() float64 {
+		if rng.Intn(8) == 0 {
+			return math.MaxFloat64
+		}
+		return rng.Uniform(0.9e308, 1.797e308)
+	}
+	switch seed % 7 {
+	case 5: // huge finite values
+		m := 0 // number of negative ones
+		if n >= 2 {
+			m = rng.Range(1, n-1)
+			if rng.Bool() { // the overflowing gap next to the orders around nq
+				m = min(n-1, max(1, int(math.Round(float64(n)*q))+rng.Range(-1, 1)))
+			}
+		} else if rng.Bool() {
+			m = 1
+		}
+		switch v := rng.Intn(6); {
+		case v <= 3: // mixed sign, all huge: x_(m+1) - x_(m) overflows
+			for i := range xs {
+				xs[i] = huge()
+				if i < m {
+					xs[i] = -xs[i]
+				}
+			}
+		case v == 4: // one sign, all huge: sums of two overflow
+			sg := rng.Sign()
+			for i := range xs {
+				xs[i] = sg * huge()
+			}
+		default: // huge negative, moderate, huge positive
+			for i := range xs {
+				switch {
+				case i < m:
+					xs[i] = -huge()
+				case i < m+(n-m)/2:
+					xs[i] = 1 + rng.Norm()*0.125
+				default:
+					xs[i] = huge()
+				}
+			}
+		}
+		rng.ShuffleF(xs)
+		return xs
+	case 6: // +-Inf observations at the ends
+		a, b := 0, 0 // numbers of -Inf and +Inf
+		switch rng.Intn(5) {
+		case 0:
+			b = 1
+		case 1:
+			a = 1
+		case 2:
+			a, b = 1, 1
+		default:
+			a, b = rng.Range(0, n/2), rng.Range(0, n/2)
+			if a+b == 0 {
+				b = 1
+			}
+		}
+		if a+b > n { // n = 1
+			a, b = 0, 1
+			if rng.Bool() {
+				a, b = 1, 0
+			}
+		}
+		hugeRest := rng.Intn(4) == 0
+		for i := range xs {
+			switch {
+			case i < a:
+				xs[i] = math.Inf(-1)
+			case i < a+b:
+				xs[i] = math.Inf(1)
+			case hugeRest:
+				xs[i] = rng.Sign() * huge()
+			default:
+				xs[i] = 10 + rng.Norm()
+			}
+		}
+		rng.ShuffleF(xs)
+		return xs
+	}
+	switch seed % 7 % 5 {
 	case 0: // a permutation of 1..n
 		for i, p := range rng.Perm(n) {
 			xs[i] = float64(p + 1)
@@ -740,12 +832,47 @@ func c11JudgeNormal(w *mon.W, m ref.C11Norm, c float64, res stats.QuantileCIResu
 type c11Data struct {
 	xs, sorted []float64
 	wantQ      [2]float64
+	// reference-side description of the contents
+	hasInf, overflowGap bool
+	// the order statistics the R8 estimate at q lies between, for every
+	// position within rounding of h = 1/3 + q(n+1/3) (C10's bracket)
+	qLo, qHi float64
+}
+
+// hostileAt reports whether x_(k) (1 <= k <= n) is a value that selection and
+// arithmetic on the selected values treat differently: it is infinite, or the
+// difference to a neighbouring order statistic is not finite.
+func (d *c11Data) hostileAt(k int) (infinite, gap bool) {
+	n := len(d.sorted)
+	if k < 1 || k > n {
+		return false, false
+	}
+	x := d.sorted[k-1]
+	infinite = math.IsInf(x, 0)
+	for _, j := range []int{k - 1, k + 1} {
+		if j >= 1 && j <= n {
+			if g := d.sorted[j-1] - x; math.IsInf(g, 0) || g != g {
+				gap = true
+			}
+		}
+	}
+	return
 }
 
 func c11NewData(n int, seed uint64, q float64) *c11Data {
-	d := &c11Data{xs: c11Sample(n, seed)}
+	d := &c11Data{xs: c11Sample(n, seed, q)}
 	d.sorted = append([]float64(nil), d.xs...)
 	sort.Float64s(d.sorted)
+	for i, x := range d.sorted {
+		if math.IsInf(x, 0) {
+			d.hasInf = true
+		} else if i > 0 && !math.IsInf(d.sorted[i-1], 0) && math.IsInf(x-d.sorted[i-1], 0) {
+			d.overflowGap = true
+		}
+	}
+	h := 1/3.0 + q*(float64(n)+1/3.0)
+	at := func(k float64) float64 { return d.sorted[int(math.Min(float64(n), math.Max(1, k)))-1] }
+	d.qLo, d.qHi = at(math.Floor(h-1e-9*(h+1))), at(math.Floor(h+1e-9*(h+1))+1)
 	// Sample.Quantile is C10's business; here only "the same value"
 	mon.Call(func() { d.wantQ[0] = stats.Sample{Xs: append([]float64(nil), d.xs...)}.Quantile(q) })
 	mon.Call(func() { d.wantQ[1] = stats.Sample{Xs: append([]float64(nil), d.sorted...), Sorted: true}.Quantile(q) })
@@ -893,6 +1020,22 @@ func c11JudgeSample(w *mon.W, cs c11Case, results []c11Res, sub func(...float64)
 		if hi <= n {
 			wantHi = d.sorted[hi-1]
 		}
+		// classes of the contents (reference side); which order statistics
+		// the result selects is QuantileCI's answer, so that is only noted
+		w.HitIf(d.overflowGap, "sample-finite-with-gap>MaxFloat64")
+		w.HitIf(d.hasInf, "sample-with-Inf-observations")
+		for _, k := range []int{lo, hi} {
+			inf, gap := d.hostileAt(k)
+			if inf {
+				w.Note("SampleCI-order-on-an-Inf-observation")
+			}
+			if gap && d.hasInf {
+				w.Note("SampleCI-order-beside-an-Inf-observation")
+			}
+			if gap && !d.hasInf {
+				w.Note("SampleCI-order-beside-a-gap>MaxFloat64")
+			}
+		}
 		if lo == 0 {
 			w.Note("SampleCI-with-order-0")
 		}
@@ -923,6 +1066,15 @@ func c11JudgeSample(w *mon.W, cs c11Case, results []c11Res, sub func(...float64)
 				w.Violate("sample-bounds", fmt.Sprintf("%s returned lo=%v hi=%v, order statistics of the present contents are %v and %v", name, glo, ghi, wantLo, wantHi), sub(r.c))
 			}
 			if !c10Same(gq, d.wantQ[0]) && !c10Same(gq, d.wantQ[1]) {
+				// Where the interpolation of Sample.Quantile itself leaves
+				// the finite range (C10's business: infinite observations,
+				// bracketing order statistics more than MaxFloat64 apart),
+				// any value between the bracketing order statistics is
+				// accepted instead of the value Quantile returned.
+				if g := d.qHi - d.qLo; (math.IsInf(g, 0) || g != g) && gq >= d.qLo && gq <= d.qHi {
+					w.Note("sample-quantile-accepted-by-bracket")
+					continue
+				}
 				w.Violate("sample-quantile", fmt.Sprintf("%s returned q=%v, Sample.Quantile(%v) of the present contents is %v", name, gq, q, d.wantQ[0]), sub(r.c))
 			}
 		}
@@ -1021,8 +1173,8 @@ func c11RandCs(rng *mon.Rand, k int) []float64 {
 }
 
 func c11Run(r *mon.Run) {
-	r.Rule("exact regime: every n=1..30 x q in {j/40, 1e-9, 1-1e-9} x c in {j/200 (exact regime, thorough: j/2000), 0.999..1-1e-12, 1e-3..1e-300, 5e-324, 1-1e-16, 1, nextafter(1), 2, +Inf} plus, per (n,q), every cumulative mass of the reference's greedy path and every Confidence reported along the library's own path, each with both nextafter neighbours, fed back as c, and every cumulative mass of the reference path plus twice the rounding slack and times 1+-LogUniform(1e-16,1e-9). normal regime: n in {31..36, 50, 100, 101, 1000, 2000} (thorough: every n=31..130 and 200,500,999,1500) on the same q and c, plus per (n,q) levels that put an end of the central normal interval on / 1e-6 beside bucket boundaries at both clamps, near mu and at random, the levels where the band just covers [0,n+1], and the reported Confidences +-1ulp fed back, plus levels that put the end +-5e-11 and +-LogUniform(1e-12,1e-9) from each of those boundaries. random: n, q from hostile families ((n+1)q or nq-1/2 beside an integer, dyadic, grid+-1ulp, within 1e-9..0.1 of 0 and 1, 1/2+-LogUniform(1e-14,1e-6), the q at which two buckets at most 6 apart carry equal mass +-LogUniform(1e-14,1e-6), uniform) x 40 random c, expanded the same way. SampleCI on every distinct pair of orders of every case (unsorted with Sorted=false, sorted with Sorted=true; 5 sample families); the two guarded buffers of a case are overwritten in place with another data set between consecutive SampleCI rounds (the first pair of orders is applied to both sets) and every call is judged against a fresh sort of the present contents; before every SampleCI round 1..3 other Sample operations, in random order, run on unrelated samples of other lengths (2..16, for n<=40 also n+-1..5): Quantile and IQR of weighted and of unweighted unsorted samples, Sort of weighted and unweighted samples, Copy+Sort+Quantile/IQR (results discarded, panics there ignored). Every judged QuantileCI(n,q,c) is asked three times: again at once, and once more after one unrelated QuantileCI call (another level of the case, n+-1, an n of the other regime, q+-1/4, or (7,0.5,0.9)); the three answers must have the same bits, and a differing answer is judged with all the oracles as well. Non-trivial = hits a reference-side class; distinct by hash of (n,q,c) in the grid classes and of (n,q,levels) in the random classes; c at a cumulative mass (+-1ulp) and normal end points within 1e-9 of a bucket boundary are counted as ambiguous.")
-	r.Assume("domain: n>=1, 0<=q<=1, c>0 (c<=0 and NaN are not confidence levels and are never generated); samples finite, unweighted, of size n",
+	r.Rule("exact regime: every n=1..30 x q in {j/40, 1e-9, 1-1e-9} x c in {j/200 (exact regime, thorough: j/2000), 0.999..1-1e-12, 1e-3..1e-300, 5e-324, 1-1e-16, 1, nextafter(1), 2, +Inf} plus, per (n,q), every cumulative mass of the reference's greedy path and every Confidence reported along the library's own path, each with both nextafter neighbours, fed back as c, and every cumulative mass of the reference path plus twice the rounding slack and times 1+-LogUniform(1e-16,1e-9). normal regime: n in {31..36, 50, 100, 101, 1000, 2000} (thorough: every n=31..130 and 200,500,999,1500) on the same q and c, plus per (n,q) levels that put an end of the central normal interval on / 1e-6 beside bucket boundaries at both clamps, near mu and at random, the levels where the band just covers [0,n+1], and the reported Confidences +-1ulp fed back, plus levels that put the end +-5e-11 and +-LogUniform(1e-12,1e-9) from each of those boundaries. random: n, q from hostile families ((n+1)q or nq-1/2 beside an integer, dyadic, grid+-1ulp, within 1e-9..0.1 of 0 and 1, 1/2+-LogUniform(1e-14,1e-6), the q at which two buckets at most 6 apart carry equal mass +-LogUniform(1e-14,1e-6), uniform) x 40 random c, expanded the same way. SampleCI on every distinct pair of orders of every case (unsorted with Sorted=false, sorted with Sorted=true; 7 sample families, without NaN and zeros: permutation of 1..n, normal, few distinct values, descending, offset up to 1e12 + normal, finite values of magnitude 0.9e308..MaxFloat64 (mixed sign with the sign change at a random order or next to nq, so that two neighbouring order statistics are more than MaxFloat64 apart; one sign; huge/moderate/huge), and samples holding -Inf and/or +Inf observations (one at either end, one at both, or up to n/2 of each) beside moderate or huge finite ones; lo and hi must equal the order statistics of a fresh sort on all of them; q must equal Sample.Quantile of the same data, or, where the bracketing order statistics of the R8 position are a non-finite distance apart, lie between them); the two guarded buffers of a case are overwritten in place with another data set between consecutive SampleCI rounds (the first pair of orders is applied to both sets) and every call is judged against a fresh sort of the present contents; before every SampleCI round 1..3 other Sample operations, in random order, run on unrelated samples of other lengths (2..16, for n<=40 also n+-1..5): Quantile and IQR of weighted and of unweighted unsorted samples, Sort of weighted and unweighted samples, Copy+Sort+Quantile/IQR (results discarded, panics there ignored). Every judged QuantileCI(n,q,c) is asked three times: again at once, and once more after one unrelated QuantileCI call (another level of the case, n+-1, an n of the other regime, q+-1/4, or (7,0.5,0.9)); the three answers must have the same bits, and a differing answer is judged with all the oracles as well. Non-trivial = hits a reference-side class; distinct by hash of (n,q,c) in the grid classes and of (n,q,levels) in the random classes; c at a cumulative mass (+-1ulp) and normal end points within 1e-9 of a bucket boundary are counted as ambiguous.")
+	r.Assume("domain: n>=1, 0<=q<=1, c>0 (c<=0 and NaN are not confidence levels and are never generated); samples unweighted, of size n, of any float64 observations that have a sorted order (no NaN; no zeros, whose mutual order is undefined): the statement puts no bound on the values, so finite values up to MaxFloat64 and +-Inf observations are in the domain and x[LoOrder], x[HiOrder] are the order statistics themselves there too (bit-equal to a fresh sort); the Quantile(q) component is only compared with what Sample.Quantile returns for the same data (C10 judges that value), and where the interpolation leaves the finite range any value between the bracketing order statistics is accepted",
 		"exact regime: q is taken as the exact rational value of the float64; tolerance 1e-12 on masses (31 products of a few ulp each); 'at least c' is judged on the exact mass of the returned buckets and on the reported Confidence with the rounding-scale slack 64(n+2)2^-52 max(c, mass) (at least 8x the worst deficit of a float64 accumulation of the masses); a bucket within 1e-12 of the largest mass counts as a mode",
 		"'at least one end bucket is needed' is judged as stated (not both removable: mass - max(end masses) < c + 1e-12), not as the stronger 'the smaller end is needed'",
 		"normal regime: mu, sigma correctly rounded from exact nq, nq(1-q); inverse of Phi by bisection on math.Erfc, checked at start-up against the 384-bit Newton inversion; window 1e-9 around bucket boundaries, inside which the outward neighbour is always accepted and the inward one only if its band still carries normal mass >= c-1e-13; Confidence +-1e-9 of the band's mass and 1-Confidence within 1e-6 relative + 1e-15 of the mass outside the band (sum of the two outer erfc values; 0 when the band covers everything, so that exactly 1 is accepted only there or when the outside mass is below 1e-15: two erfc values at |t|<=26.5 differ by at most 1400 times the relative difference of their arguments, below 1e-8 for n<=2001, and a difference of two values next to 1 carries two roundings of 1.1e-16); band mass and Confidence >= c-1e-13 (rounding of two erfc values)",
@@ -1035,7 +1187,9 @@ func c11Run(r *mon.Run) {
 		"sample-unsorted",
 		"ref-shift-nearly-equal(n<=30)", "c-just-above-cumulative-mass(n<=30)", "end-just-outside-boundary(n>30)", "sample-refilled-in-place",
 		"asked-again-at-once", "asked-again-after-an-unrelated-call", "outside-mass-1e-13..1e-9(n>30)",
-		"SampleCI-after-weighted-unsorted-Quantile|IQR-elsewhere", "SampleCI-after-unweighted-unsorted-Quantile|IQR-elsewhere", "SampleCI-after-Sort|Copy-elsewhere")
+		"SampleCI-after-weighted-unsorted-Quantile|IQR-elsewhere", "SampleCI-after-unweighted-unsorted-Quantile|IQR-elsewhere", "SampleCI-after-Sort|Copy-elsewhere",
+		"sample-finite-with-gap>MaxFloat64", "sample-with-Inf-observations",
+		"SampleCI-order-beside-a-gap>MaxFloat64", "SampleCI-order-beside-an-Inf-observation", "SampleCI-order-on-an-Inf-observation")
 	if err := ref.C11SelfTest(); err != nil {
 		r.Inconclusive("reference self-test failed: " + err.Error())
 		return
